@@ -314,7 +314,6 @@ impl GlobWalker {
                 let depth = entry.depth().saturating_sub(1);
                 for (position, candidate) in path
                     .components()
-                    .skip(depth)
                     .filter_map(|component| match component {
                         Component::Normal(component) => Some(CandidatePath::from(component)),
                         // Parent directory components in an invariant prefix are also components
@@ -322,6 +321,9 @@ impl GlobWalker {
                         Component::ParentDir => Some(CandidatePath::from("..")),
                         _ => None,
                     })
+                    // Skip candidate components only after removing those that have no component
+                    // program (such as a root), so that candidates and programs remain aligned.
+                    .skip(depth)
                     .zip_longest(self.program.components.iter().skip(depth))
                     .with_position()
                 {
